@@ -270,7 +270,7 @@ def r2_token_typing(chk: Check):
         return None
 
     cases = [({"is_state": True, "is_name": False, "has_state": True}, {"info.state.name"}), ({"is_state": True, "is_name": False, "has_state": False}, {"None"}),
-             ({"is_state": False, "is_name": True, "has_state": None}, {"str(info.path.parent.name)"}),
+             ({"is_state": False, "is_name": True, "has_state": None}, {"str(info.path.parent.name)", "info.path.parent.name"}),
              ({"is_state": False, "is_name": False, "has_state": None}, {"info.tags.get(self.varname, None)", "info.tags.get(self.varname)"})]
     for sc, want in cases:
         outs = walk_table(g, g.entry, classify, dict(sc), lambda n: [], stop)
